@@ -318,3 +318,26 @@ Section Checkpoint.
     - unfold wdisk_pos, wnewest. cbn [wd_ltx]. rewrite Hl. reflexivity.
   Qed.
 End Checkpoint.
+
+(* ---------- a drop of a WAL-mode database ---------- *)
+Theorem wal_drop_crash_atomic (d0 : wdisk) (img0 : file) (x0 : wltx) (sa0 : N) (fr0 : list wframe) (x : wltx) (k : nat) :
+  WConsistent d0 img0 x0 sa0 fr0 -> l_commit (x_ltx x) = 0 ->
+  let d := wrun d0 (firstn k (wdrop_steps x)) in
+  (same_image (wd_db (wrecover d)) img0 /\ wdisk_pos (wrecover d) = wdisk_pos d0) \/
+  (f_size (wd_db (wrecover d)) = 0 /\ wd_wal (wrecover d) = None /\ wdisk_pos (wrecover d) = (l_max (x_ltx x), l_post (x_ltx x))).
+Proof.
+  intros HC Hc d.
+  destruct k as [|k].
+  - left. unfold d. cbn [firstn wrun fold_left].
+    pose proof (old_recovers d0 img0 x0 sa0 fr0 HC [] (fun g Hg => match Hg with end)) as H. cbn zeta in H.
+    rewrite app_nil_r in H. destruct HC as [_ Hw _ _ _ _ _].
+    replace d0 with {| wd_db := wd_db d0; wd_wal := Some (sa0, fr0); wd_ltx := wd_ltx d0 |} at 1 3 by (rewrite <- Hw; destruct d0; reflexivity).
+    exact H.
+  - right.
+    assert (wd_ltx d = wd_ltx d0 ++ [x]) as Hl.
+    { unfold d, wdrop_steps. destruct k as [|[|k]]; cbn [firstn wrun fold_left wstep_exec wd_ltx];
+        try rewrite firstn_nil; cbn [fold_left wd_ltx]; reflexivity. }
+    assert (wnewest d = Some x) as Hn by (unfold wnewest; rewrite Hl, rev_app_distr; reflexivity).
+    unfold wrecover. rewrite Hn. cbn [wd_db wd_wal wd_ltx truncate f_size]. split; [exact Hc|]. split; [reflexivity|].
+    unfold wdisk_pos, wnewest. cbn [wd_ltx]. rewrite ?Hl, rev_app_distr. reflexivity.
+Qed.
